@@ -5,6 +5,7 @@ package main
 
 import (
 	"fmt"
+	"sort"
 	"go/ast"
 	"go/types"
 	"strings"
@@ -280,6 +281,72 @@ func genC13(p *Pkg) (map[string]string, error) {
 			return true
 		})
 	}
+	// typed export dispatch: which implementation classes have their own exportToArrayOrSlice / exportToMap, which of
+	// those methods enter their container into the identity cache, and the order of the generic function's tests
+	var dispatch []string
+	for _, meth := range []string{"exportToArrayOrSlice", "exportToMap"} {
+		var recvs []string
+		fnames := make([]string, 0, len(p.Files))
+		for n := range p.Files {
+			fnames = append(fnames, n)
+		}
+		sort.Strings(fnames)
+		for _, n := range fnames {
+			for _, d := range p.Files[n].Decls {
+				fd, ok := d.(*ast.FuncDecl)
+				if !ok || fd.Name.Name != meth || fd.Recv == nil || len(fd.Recv.List) != 1 {
+					continue
+				}
+				rt := fd.Recv.List[0].Type
+				if s, ok := rt.(*ast.StarExpr); ok {
+					rt = s.X
+				}
+				recvs = append(recvs, types.ExprString(rt))
+			}
+		}
+		sort.Strings(recvs)
+		for _, rc := range recvs {
+			dispatch = append(dispatch, meth+"@"+rc)
+		}
+	}
+	for _, f := range []fact{
+		{"arrayObject.exportToArrayOrSlice: caches", "arrayObject", "exportToArrayOrSlice", callsFn("putTyped")},
+		{"sparseArrayObject.exportToArrayOrSlice: caches", "sparseArrayObject", "exportToArrayOrSlice", callsFn("putTyped")},
+		{"setObject.exportToArrayOrSlice: caches", "setObject", "exportToArrayOrSlice", callsFn("putTyped")},
+		{"mapObject.exportToMap: caches", "mapObject", "exportToMap", callsFn("putTyped")},
+		{"setObject.exportToMap: caches", "setObject", "exportToMap", callsFn("putTyped")},
+		{"genericExportToArrayOrSlice: caches", "", "genericExportToArrayOrSlice", callsFn("putTyped")},
+		{"genericExportToMap: caches", "", "genericExportToMap", callsFn("putTyped")},
+		{"genericExportToArrayOrSlice: array-like only for non-callables", "", "genericExportToArrayOrSlice", callsFn("assertCallable")},
+		{"arrayObject.exportToArrayOrSlice: generic path when Symbol.iterator is overridden", "arrayObject", "exportToArrayOrSlice", callsFn("getArrayValues")},
+	} {
+		ok, err := inBody(f.recv, f.name, f.pred)
+		if err != nil {
+			return nil, err
+		}
+		if ok {
+			dispatch = append(dispatch, f.label)
+		} else {
+			dispatch = append(dispatch, "MISSING "+f.label)
+		}
+	}
+	if g, err := firstIf("", "genericExportToArrayOrSlice"); err != nil {
+		return nil, err
+	} else {
+		// the first statement is `r := o.runtime`; firstIf looks at statement 0 only, so look at statement 1 here
+		_ = g
+	}
+	if fd := p.FuncDecl("", "genericExportToArrayOrSlice"); fd != nil && len(fd.Body.List) >= 2 {
+		if ifs, ok := fd.Body.List[1].(*ast.IfStmt); ok && ifs.Init != nil {
+			if as, ok := ifs.Init.(*ast.AssignStmt); ok && len(as.Rhs) == 1 {
+				if strings.Contains(types.ExprString(as.Rhs[0]), "SymIterator") {
+					dispatch = append(dispatch, "genericExportToArrayOrSlice: iterable test first")
+				} else {
+					dispatch = append(dispatch, "MISSING genericExportToArrayOrSlice: iterable test first")
+				}
+			}
+		}
+	}
 	var b strings.Builder
 	b.WriteString("-- generated by extract/c13.go from runtime.go (Runtime.toValue) and the Go wrapper files; do not edit\n")
 	b.WriteString("namespace GojaModel.Generated.C13\n")
@@ -289,6 +356,7 @@ func genC13(p *Pkg) (map[string]string, error) {
 	b.WriteString("def guards : List String := " + list(guards) + "\n")
 	b.WriteString("def toReflectOrder : List String := " + list(toReflect) + "\n")
 	b.WriteString("def argLoopConds : List String := " + list(argLoop) + "\n")
+	b.WriteString("def exportDispatch : List String := " + list(dispatch) + "\n")
 	b.WriteString("end GojaModel.Generated.C13\n")
 	return map[string]string{"C13_ToValue.lean": b.String()}, nil
 }
